@@ -12,7 +12,8 @@ def run(unit, tier):
     out = subprocess.run([sys.executable, "vf/main.py", "unit", unit, "--tier", tier], capture_output=True, text=True, env=env).stdout
     return [l.split(':: input=', 1)[1].strip() for l in out.splitlines() if l.startswith('FAILED ')]
 old = open(K).read().split('\n')
-keep = [l for l in old if '"unit": "U44"' not in l and not l.startswith(H44) and not ('"unit": "U43"' in l and 'K-REPAIRED' in l) and not l.startswith(H43)]
+H46 = "# U46 (C01 / C03 at the process boundary)"
+keep = [l for l in old if '"unit": "U44"' not in l and not l.startswith(H44) and '"unit": "U46"' not in l and not l.startswith(H46) and not ('"unit": "U43"' in l and 'K-REPAIRED' in l) and not l.startswith(H43)]
 while keep and keep[-1] == '': keep.pop()
 lines = [H44 + ": per file of the frozen corpus, the exact set of (max_width / style edition) of the tier's grid at which the second pass of the real binary differs from the first on the unchanged tree -- genuine non-idempotent layouts of rustfmt (a dozen root causes: an array that holds a comment, leading pipes of match arms, struct literals and aligned fields at narrow widths, string literals, wrapped comments, ...); not repaired (each is a layout decision that depends on where the first pass left the text, no small and safe patch)"]
 ob44 = "rustfmt binary: formatting its own output again succeeds and returns it unchanged, byte for byte"
@@ -29,5 +30,21 @@ for t in ('quick', 'thorough'):
         d = {"property": "C09", "unit": "U43", "obligation": ob43, "input": i, "what": "the pinned release's output is itself a defect there (see the reason in the input); this tree's is not"}
         if t == 'thorough': d["tier"] = "thorough"
         lines.append("finding: " + json.dumps(d, ensure_ascii=False))
+lines.append(H46 + ": per file of the frozen corpus, the grid points at which the output of the real binary does not hold the content tokens / doc-comment words / comment words of its input on the unchanged tree -- genuine defects of rustfmt: F60 `impl Bar { pub type Iter = impl Trait; }` loses its `pub` (rewrite_type_alias passes DEFAULT_VISIBILITY for an opaque type in an impl; pinned by tests/target/issue_5027.rs, so not repaired)")
+def run46(tier):
+    env = dict(os.environ, VF_FULL_INPUT="1"); env.pop("VERIF_REPO", None)
+    out = subprocess.run([sys.executable, "vf/main.py", "unit", "U46", "--tier", tier], capture_output=True, text=True, env=env).stdout
+    r = []
+    for l in out.splitlines():
+        if l.startswith('FAILED '):
+            ob, i = l[len('FAILED '):].split(' :: input=', 1)
+            r.append((ob.strip(), i.strip()))
+    return r
+for t in ('quick', 'thorough'):
+    for ob, i in run46(t):
+        prop = "C03" if ob.startswith("rustfmt binary: the comments of the output") else "C01"
+        d = {"property": prop, "unit": "U46", "obligation": ob, "input": i, "what": "real binary: rustfmt --config-path <cfg> < file; input and output lexed with rustc_lexer"}
+        if t == 'thorough': d["tier"] = "thorough"
+        lines.append("finding: " + json.dumps(d, ensure_ascii=False))
 open(K, 'w').write('\n'.join(keep + lines) + '\n')
-print("U44 + K-REPAIRED entries: %d" % (len(lines) - 2))
+print("U44 + K-REPAIRED + U46 entries: %d" % (len(lines) - 3))
